@@ -1,3 +1,4 @@
+import errno
 import os
 import shutil
 import stat
@@ -166,7 +167,18 @@ def remove_tree_without_recursion(path):
 
 class RealRemoveFileIfExists(RemoveFileIfExists, RemoveFile2):
     def remove_file_if_exists(self, path):
-        if os.path.lexists(path): self.remove_file2(path)
+        if may_exist(path): self.remove_file2(path)
+
+
+def may_exist(path):
+    try:
+        os.lstat(path)
+    except OSError as e:
+        # only these tell that nothing is there; EACCES, EIO, ... tell that
+        # we could not look: the removal is tried (and fails loudly) rather
+        # than the file taken for absent
+        return e.errno not in (errno.ENOENT, errno.ENOTDIR)
+    return True
 
 
 class RealMove(Move):
